@@ -849,6 +849,9 @@ fn check_vec(ctx: &mut Ctx, c: &VecCase) -> Outcome {
             }
             args.push("-true".into());
             args.extend(std::iter::repeat(")".to_string()).take(n));
+        } else if t == "@REC@" {
+            // (saved cases name the recorder by this placeholder: its path depends on where /verif is)
+            args.push(rec_bin().to_string_lossy().into_owned());
         } else {
             args.push(t.clone());
         }
